@@ -1088,7 +1088,6 @@ func c20Instances(add func(*Instance), thorough bool) {
 			ad(with(base, "q", 0, "cop", 1, "fs", 0, "par", par), 0)
 			ad(with(base, "q", 0, "cop", 6, "fs", 2, "par", par), 0)
 		}
-		ad(with(base, "q", 0, "cop", 2, "fs", 0, "w", 3, "nv", 1), 0)
 		for _, fs := range []int{0, 1, 2, 3} {
 			ad(with(base, "q", 2, "fs", fs), 0)
 			ad(with(base, "q", 3, "fs", fs), 0)
